@@ -7,6 +7,8 @@ database additions and selected-output definitions exist after each simulation) 
 simulation is satisfied by an *earlier* definition (or one in the same simulation), so the whole text runs error-free and
 later simulations depend on what earlier ones left behind:
 
+  late references      SELECTED_OUTPUT lists and USER_PUNCH may name additions (Zz, ZzCl, Zzite, NaY; Calcite_b, MgCl+) that only a
+                       LATER simulation defines: the engine must re-resolve the names when the model changes
   global definitions   TITLE, KNOBS, PRINT -selected_output, INCREMENTAL_REACTIONS, RATES (+ redefinition), CALCULATE_VALUES
                        (+ redefinition), database additions (SOLUTION_MASTER_SPECIES Zz, SOLUTION_SPECIES, PHASES Zzite,
                        EXCHANGE_MASTER_SPECIES Y, EXCHANGE_SPECIES; + redefinition of log_k), SELECTED_OUTPUT n / USER_PUNCH n
@@ -37,8 +39,15 @@ SO_LISTS = {
     "kinetic_reactants": ["r_first", "r_const", "r_ratio"],
     "solid_solutions": ["Calcite", "Strontianite", "Barite"],
 }
+# names that only exist after a database-addition block: "zz" = new element Zz with ion pair, phase, exchanger Y;
+# "lb" = additions on an existing reaction basis (phase Calcite_b = CaCO3, ion pair MgCl+).  SELECTED_OUTPUT / USER_PUNCH may
+# name them BEFORE the block that defines them (the engine warns and punches -999.999 / 0 until the name exists).
 ZZ_LISTS = {"totals": ["Zz"], "molalities": ["ZzCl", "NaY", "ZzX"], "saturation_indices": ["Zzite"],
-            "equilibrium_phases": ["Zzite"]}
+            "equilibrium_phases": ["Zzite"], "activities": ["ZzCl"]}
+LB_LISTS = {"molalities": ["MgCl+"], "activities": ["MgCl+"], "saturation_indices": ["Calcite_b"],
+            "equilibrium_phases": ["Calcite_b"]}
+ZZ_PUNCH = ['TOT("Zz")', 'MOL("ZzCl")', 'SI("Zzite")', 'MOL("NaY")', 'LA("ZzCl")']
+LB_PUNCH = ['SI("Calcite_b")', 'MOL("MgCl+")', 'LA("MgCl+")', 'EQUI("Calcite_b")']
 PUNCH_EXPR = ['TOT("Na")', 'TOT("Cl")', 'TOT("Ca")', 'MOL("Ca+2")', 'MOL("HCO3-")', '-LA("H+")', 'LA("e-")', "MU", "TC",
               'SI("Calcite")', 'SI("Gypsum")', 'EQUI("Calcite")', 'KIN("r_first")', 'KIN("r_const")', "STEP_NO", "TOTAL_TIME",
               'TOT("water")', "CHARGE_BALANCE", "PERCENT_ERROR", 'ALK', 'SC', 'RHO', 'GAS("CO2(g)")', 'TOTMOLE("Na")',
@@ -55,11 +64,30 @@ class Model(object):
         self.rates = False
         self.calc = False
         self.zz = False
+        self.lb = False         # Calcite_b / MgCl+ defined
+        self.pending = set()    # (addition, user number) named by a selected output before the addition exists
         self.punch = True       # PRINT -selected_output
         self.incr = False       # INCREMENTAL_REACTIONS currently true
         self.so = set()
         self.temp = {}          # solution number -> temperature (for gas phases)
         self.feats = set()
+
+
+ZZ_NAMES = {"Zz", "ZzCl", "NaY", "ZzX", "Zzite"}
+LB_NAMES = {"MgCl+", "Calcite_b"}
+
+
+def _note_refs(M, n, names):
+    """remember which selected-output user numbers name an addition that does not exist yet"""
+    for nm in names:
+        if nm in ZZ_NAMES:
+            M.feats.add("selected_output_names_zz_addition")
+            if not M.zz:
+                M.pending.add(("zz", n))
+        if nm in LB_NAMES:
+            M.feats.add("selected_output_names_basis_addition")
+            if not M.lb:
+                M.pending.add(("lb", n))
 
 
 def _bool(draw, p_num, p_den):
@@ -102,6 +130,12 @@ def db_additions(draw, first):
             % (fmt(k[0]), fmt(k[1] - 2.0), fmt(k[2]), fmt(k[3] + 0.5)))
 
 
+def basis_additions(draw):
+    """a phase and an ion pair on existing master species; a repetition changes the constants (the names' meaning)"""
+    return ("PHASES\n Calcite_b\n  CaCO3 = Ca+2 + CO3-2\n  log_k %s\nSOLUTION_SPECIES\n Mg+2 + Cl- = MgCl+\n  log_k %s"
+            % (fmt(-8.48 + draw(cg.uni(-1.0, 1.0, 2))), fmt(draw(cg.uni(-0.5, 1.0, 2)))))
+
+
 def selected_output(draw, M, n):
     L = ["SELECTED_OUTPUT %d" % n]
     r = draw(st.sampled_from([None, None, True, False]))
@@ -112,8 +146,10 @@ def selected_output(draw, M, n):
     for f in draw(st.lists(st.sampled_from(SO_FLAGS), max_size=5, unique=True)):
         L.append(" -%s %s" % (f, str(draw(st.booleans())).lower()))
     for k in draw(st.lists(st.sampled_from(sorted(SO_LISTS)), max_size=4, unique=True)):
-        pool = SO_LISTS[k] + (ZZ_LISTS.get(k, []) if M.zz else [])
-        L.append(" -%s %s" % (k, " ".join(draw(st.lists(st.sampled_from(pool), min_size=1, max_size=4, unique=True)))))
+        pool = SO_LISTS[k] + ZZ_LISTS.get(k, []) * 2 + LB_LISTS.get(k, []) * 2
+        names = draw(st.lists(st.sampled_from(pool), min_size=1, max_size=4, unique=True))
+        L.append(" -%s %s" % (k, " ".join(names)))
+        _note_refs(M, n, names)
     if not any(l.endswith(" true") or l.split()[0] in ("-" + k for k in SO_LISTS) for l in L[1:] if not l.startswith((" -reset", " -high"))):
         L.append(" -ph true")       # every definition has at least one column
     return "\n".join(L)
@@ -123,9 +159,9 @@ def user_punch(draw, M, n):
     pool = list(PUNCH_EXPR)
     if M.calc:
         pool += ['CALC_VALUE("cv1")'] * 12
-    if M.zz:
-        pool += ['TOT("Zz")', 'MOL("ZzCl")', 'SI("Zzite")', 'MOL("NaY")']
+    pool += ZZ_PUNCH + LB_PUNCH
     items = draw(st.lists(st.sampled_from(pool), min_size=1, max_size=5))
+    _note_refs(M, n, [i.split('"')[1] for i in items if i in ZZ_PUNCH + LB_PUNCH])
     mem = _bool(draw, 1, 2)
     heads = ["u%d_%d" % (n, i) for i in range(len(items) + (1 if mem else 0))]
     L = ["USER_PUNCH %d" % n, " -headings " + " ".join(heads), " -start", " 10 PUNCH " + ", ".join(items)]
@@ -167,6 +203,8 @@ def define_entity(draw, M, kind, n, sols_now):
     if kind == "equilibrium_phases":
         d = draw(CG.pp(DB, "c02", False, 7.0))
         d["phases"] = [p for p in d["phases"] if p["name"] != "Fix_pH"] or [{"name": "Calcite", "si": 0.0, "moles": 1.0, "opt": "", "alt": ""}]
+        if M.lb and _bool(draw, 1, 4) and not any(p["name"] in ("Calcite", "Aragonite") for p in d["phases"]):
+            d["phases"].append({"name": "Calcite_b", "si": 0.0, "moles": draw(st.sampled_from([0.0, 0.01, 1.0])), "opt": "", "alt": ""})
         if M.zz and _bool(draw, 1, 3):
             d["phases"].append({"name": "Zzite", "si": 0.0, "moles": draw(st.sampled_from([0.0, 0.01, 1.0])), "opt": "", "alt": ""})
         return CG.render_pp(d, n)
@@ -263,7 +301,15 @@ def simulation(draw, M, k, nsim):
     if _bool(draw, 1, 3 if not M.zz else 8):
         P.append(db_additions(draw, not M.zz))
         F.add("db_additions" if not M.zz else "db_additions_redefined")
+        if not M.zz and any(a == "zz" for a, _ in M.pending):
+            F.add("addition_defined_after_selected_output_named_it")
         M.zz = True
+    if _bool(draw, 1, 4 if not M.lb else 8):
+        P.append(basis_additions(draw))
+        F.add("basis_additions" if not M.lb else "basis_additions_redefined")
+        if not M.lb and any(a == "lb" for a, _ in M.pending):
+            F.add("addition_defined_after_selected_output_named_it")
+        M.lb = True
     if _bool(draw, 1, 9):
         v = draw(st.sampled_from(["true", "false"] if not M.incr else ["false", "false", "true"]))
         P.append("INCREMENTAL_REACTIONS %s" % v)
